@@ -34,6 +34,8 @@ type lrCase struct {
 	NoLibs  bool     `json:"nolibs"`
 	MaxEv   int      `json:"maxev"`
 	Alloc   bool     `json:"alloc"` // measure heap allocation of the case
+	Sandbox bool     `json:"sandbox"` // run in a sentinel directory and report file-system changes
+	Helpers bool     `json:"helpers"` // register the __flags helper
 	Gor     bool     `json:"gor"` // report the number of goroutines left behind by the case
 	Trace   string   `json:"trace"` // "", "ctx", "co", "all": record a hook trace (verif builds)
 	Raw     bool     `json:"raw"` // call the chunk with rt.Call directly instead of inside Thread.CallContext
@@ -56,6 +58,7 @@ type lrOut struct {
 	Gor     *int          `json:"goroutines_left,omitempty"`
 	Stdout  string        `json:"stdout,omitempty"`
 	Trace   []traceEv     `json:"trace,omitempty"`
+	FsCh    []string      `json:"fs_changes"`
 	DumpOK  *bool         `json:"dump_stable,omitempty"` // mode dump: dump(f) == dump(f) and dump(load(dump(f))) == dump(f)
 	Alloc   uint64        `json:"alloc_bytes,omitempty"` // Go heap bytes allocated while the case ran (MemStats.TotalAlloc delta)
 	WallMs  int64         `json:"wall_ms,omitempty"`
@@ -162,6 +165,17 @@ func runLuaCase(c *lrCase) (o lrOut) {
 	var cleanup func()
 	if !c.NoLibs {
 		cleanup = lib.LoadAll(r)
+	}
+	if c.Helpers {
+		registerFlagsHelper(r)
+	}
+	if c.Sandbox {
+		if sb, e := newSandbox(); e == nil {
+			defer func() { o.FsCh = sb.finish() }()
+		} else {
+			o.Panic = "sandbox: " + e.Error()
+			return
+		}
 	}
 	tr := startTrace(c.Trace, r)
 	defer func() {
